@@ -168,8 +168,46 @@ fn determinism(req: &Value) -> Value {
     json!({"distinct": seen, "listings": listings})
 }
 
+/// Lex every text (verification hook) and return the tokens' Debug renderings.
+fn lex(req: &Value) -> Value {
+    let mut out = vec![];
+    for t in req["texts"].as_array().unwrap() {
+        match quil_rs::verif_hooks::lex_debug(t.as_str().unwrap()) {
+            Ok(toks) => out.push(json!({"ok": toks})),
+            Err(e) => out.push(json!({"err": e})),
+        }
+    }
+    json!({"results": out})
+}
+
+/// Parse a text through one of the public `FromStr` entry points; report Ok(debug) / Err(debug).
+fn parse_any(req: &Value) -> Value {
+    use quil_rs::expression::Expression;
+    use quil_rs::instruction::{FrameIdentifier, MemoryReference};
+    let text = req["text"].as_str().unwrap();
+    fn res<T: std::fmt::Debug, E: std::fmt::Debug>(r: Result<T, E>) -> Value {
+        match r {
+            Ok(v) => json!({"ok": format!("{v:?}")}),
+            Err(e) => json!({"err": format!("{e:?}").chars().take(300).collect::<String>()}),
+        }
+    }
+    match req["kind"].as_str().unwrap_or("program") {
+        "program" => match Program::from_str(text) {
+            Ok(p) => json!({"ok": listing(&p.to_instructions())}),
+            Err(e) => json!({"err": format!("{e:?}").chars().take(300).collect::<String>()}),
+        },
+        "instruction" => res(Instruction::from_str(text)),
+        "expression" => res(Expression::from_str(text)),
+        "memory_reference" => res(MemoryReference::from_str(text)),
+        "frame_identifier" => res(FrameIdentifier::from_str(text)),
+        k => json!({"unknown_kind": k}),
+    }
+}
+
 pub fn run(op: &str, req: &Value) -> Value {
     match op {
+        "lex" => lex(req),
+        "parse_any" => parse_any(req),
         "script" => script(req),
         "determinism" => determinism(req),
         _ => json!({"unknown_op": op}),
